@@ -13,6 +13,7 @@
   The monitors never consult the Lean model `step`.
 -/
 import Hagall.Spec.Trace
+import Hagall.Spec.Answers
 namespace Hagall.Spec
 open Hagall
 
@@ -83,14 +84,6 @@ def MState.checkOthers (m : MState) (c : Nat) (ds expected : List Delivery) (pro
   | some k =>
     let det := (flat s!"conn {k}: expected {reprStr (inboxOf k expected)} got {reprStr (inboxOf k actual)}")
     props.foldl (fun m p => m.bad p cause det) m
-
-def rids (o : Out) : Option Nat :=
-  match o with
-  | .error r _ | .pingResp r | .joinResp r .. | .entityAddResp r _ | .entityDeleteResp r | .typeAddResp r _
-  | .typeNameResp r _ | .typeIdResp r _ | .compAddResp r | .compDeleteResp r | .compListResp r _
-  | .subscribeResp r | .unsubscribeResp r | .receiptResp r | .actionResp r | .assetAddResp r _
-  | .groundPlaneResp r | .regionResp r | .debugInfoResp r | .latencyResp r .. => some r
-  | _ => none
 
 def MSess.findEnt (s : MSess) (eid : Nat) : Option Entity := s.ents.find? (·.id == eid)
 def MSess.hasComp (s : MSess) (tid eid : Nat) : Bool := s.comps.any fun c => c.tid == tid && c.eid == eid
